@@ -22,4 +22,6 @@ for pid, v in [("C07", "c07_verdicts"), ("C13", "c13_verdicts")]:
         trusted_base=["hub growth is interleaved with the stream only at user-handler calls (pauses) and when the stream is live and idle; the idle detection "
                       "is time based (25 ms) but cannot change the delivered sequence once the stream is live",
                       "verif hook stream.VerifFileSourceOptions (small bundles) and hub.VerifSubscribers"],
-        assumptions=["files and hub together cover the chain; consensus-consistent finality; cursors minted by the same history"])
+        assumptions=["files and hub together cover the chain; consensus-consistent finality; cursors minted by the same history"],
+        codes={1: "model-mismatch", 2: "property-checker-rejects-impl", 3: "mismatch+property", 4: "impl-panic-or-hang",
+               6: "target-cursor-beyond-stop-block-S-not-delivered"})
